@@ -169,13 +169,21 @@ func (fc *FnCtx) sortSlice(st *State, c *ssa.CallCommon, args []Val, in ssa.Inst
 	inv := fmt.Sprintf("sort.inv!%d", fc.S.nfresh)
 	fc.S.Lines = append(fc.S.Lines, Line{LDecl, fmt.Sprintf("(declare-fun %s (Int) Int)", perm), ""}, Line{LDecl, fmt.Sprintf("(declare-fun %s (Int) Int)", inv), ""})
 	rng := func(v string) string { return fmt.Sprintf("(and (<= 0 %s) (< %s %s))", v, v, ln.S) }
-	fc.S.Assume(Implies(st.PC, Term{fmt.Sprintf("(forall ((i!p Int)) (! (=> %s (and %s (= (select %s (+ %s i!p)) (select %s (+ %s (%s i!p)))) (= (%s (%s i!p)) i!p))) :pattern ((%s i!p)) :pattern ((select %s (+ %s i!p)))))",
-		rng("i!p"), rng("("+perm+" i!p)"), newD.S, off.S, oldD.S, off.S, perm, inv, perm, perm, newD.S, off.S), SBool}), "sort.Slice: result is a permutation (forward map)")
-	fc.S.Assume(Implies(st.PC, Term{fmt.Sprintf("(forall ((i!p Int)) (! (=> %s (and %s (= (%s (%s i!p)) i!p))) :pattern ((%s i!p))))",
-		rng("i!p"), rng("("+inv+" i!p)"), perm, inv, inv), SBool}), "sort.Slice: result is a permutation (inverse map)")
+	ip := Term{"i!p", SInt}
+	atNew := fc.TE.At(newD, off, ip)
+	atOld := fc.TE.At(oldD, off, ip)
+	atOldPerm := fc.TE.At(oldD, off, app(SInt, perm, ip))
+	atNewInv := fc.TE.At(newD, off, app(SInt, inv, ip))
+	// forward: every element of the result is an element of the input (triggered by reading the result)
+	fc.S.Assume(Implies(st.PC, Term{fmt.Sprintf("(forall ((i!p Int)) (! (=> %s (and %s (= %s %s) (= (%s (%s i!p)) i!p))) :pattern (%s) :pattern ((%s i!p))))",
+		rng("i!p"), rng("("+perm+" i!p)"), atNew.S, atOldPerm.S, inv, perm, atNew.S, perm), SBool}), "sort.Slice: result is a permutation (forward map)")
+	// backward: every element of the input is an element of the result (triggered by reading the input)
+	fc.S.Assume(Implies(st.PC, Term{fmt.Sprintf("(forall ((i!p Int)) (! (=> %s (and %s (= %s %s) (= (%s (%s i!p)) i!p))) :pattern (%s) :pattern ((%s i!p))))",
+		rng("i!p"), rng("("+inv+" i!p)"), atNewInv.S, atOld.S, perm, inv, atOld.S, inv), SBool}), "sort.Slice: result is a permutation (inverse map)")
 	fc.S.Assume(Implies(st.PC, Term{fmt.Sprintf("(forall ((j!p Int)) (! (=> (or (< j!p %s) (>= j!p (+ %s %s))) (= (select %s j!p) (select %s j!p))) :pattern ((select %s j!p))))",
 		off.S, off.S, ln.S, newD.S, oldD.S, newD.S), SBool}), "sort.Slice: elements outside the slice are untouched")
-	fc.heapSet(st, hv, Store(E, arr, newD))
+	// an empty slice is not written at all
+	fc.heapSet(st, hv, Ite(app(SBool, "<=", ln, IntLit(0)), E, Store(E, arr, newD)))
 	// sortedness: evaluate less(j, i) on the post state in quiet mode
 	sub := &FnCtx{E: fc.E, Fn: less.Fn, S: fc.S, TE: fc.TE, vals: map[ssa.Value]Val{}, top: fc.top, depth: fc.depth + 1, notes: fc.notes, site: site + ">less", held: fc.held}
 	for i, b := range less.Fn.FreeVars {
